@@ -16,7 +16,10 @@
 (***************************************************************************)
 EXTENDS Naturals, Sequences, FiniteSets, TLC, Json
 
-CONSTANTS MaxDepth, Contexts
+CONSTANTS MaxDepth, Contexts,
+          Mode        \* "syntax": every syntactic class, expectation: total (C17)
+                      \* "typed" : well-typed, Sized field types with the set of std traits they implement; expectation:
+                      \*           educing exactly those traits is accepted and compiles cleanly (C01)
 
 Leaves ==
   { "u8", "T", "Self", "aa::Bb<u8>", "<T as Tr>::Out", "!", "_", "()", "mac!()", "str",
@@ -43,24 +46,62 @@ Wrap(w, x) ==
     [] w = "fn_ret"     -> "fn() -> " \o x
     [] w = "assoc"      -> "<" \o x \o " as Tr>::Out"
 
-VARIABLES ty, wraps, phase
-vars == <<ty, wraps, phase>>
+\* ---- the typed fragment: which of the derivable std traits a type implements (a small type-class table)
+Nine == {"Debug", "Clone", "Copy", "PartialEq", "Eq", "PartialOrd", "Ord", "Hash", "Default"}
+FnSup == {"Debug", "Clone", "Copy", "Hash"}
+Cmp6 == {"Debug", "PartialEq", "Eq", "PartialOrd", "Ord", "Hash"}
+TypedLeaves ==
+  [ty : {"u8"}, sup : {Nine}] \cup [ty : {"()"}, sup : {Nine}] \cup [ty : {"&'static str"}, sup : {Nine}]
+  \cup [ty : {"T"}, sup : {Nine}] \cup [ty : {"PhantomData<T>"}, sup : {Nine}] \cup [ty : {"Bb<u8>"}, sup : {Nine}]
+  \* (function pointers do implement the comparison traits, but rustc lints on comparing them: that is the user's
+  \*  choice, not the macro's, so the model does not ask for it)
+  \cup [ty : {"fn() -> u8"}, sup : {FnSup}] \cup [ty : {"*const u8"}, sup : {Nine \ {"Default"}}]
+  \cup [ty : {"for<'x> fn(&'x u8) -> &'x u8"}, sup : {FnSup}]
+  \cup [ty : {"f32"}, sup : {{"Debug", "Clone", "Copy", "PartialEq", "PartialOrd", "Default"}}]
+  \cup [ty : {"String"}, sup : {Nine \ {"Copy"}}]
+TypedWrappers == {"ref_static", "ref_mut_a", "paren", "tuple1", "tuple2", "array", "option", "boxed", "ptr_const", "fn_arg", "slice_ref"}
+WrapT(w, x) == IF w = "slice_ref" THEN "&'static [" \o x \o "]" ELSE Wrap(w, x)
+SupAfter(w, sup) ==
+  CASE w = "ref_static" -> (sup \cap Cmp6) \cup {"Clone", "Copy"}
+    [] w = "slice_ref"  -> (sup \cap Cmp6) \cup {"Clone", "Copy", "Default"}
+    [] w = "ref_mut_a"  -> sup \cap Cmp6
+    [] w \in {"paren", "tuple1", "tuple2", "array"} -> sup
+    [] w = "option"     -> sup \cup {"Default"}
+    [] w = "boxed"      -> sup \ {"Copy"}
+    [] w = "ptr_const" -> Nine \ {"Default"}
+    [] w = "fn_arg" -> FnSup
 
-Init == ty = "" /\ wraps = <<>> /\ phase = "leaf"
+VARIABLES ty, wraps, phase, sup, leaf
+vars == <<ty, wraps, phase, sup, leaf>>
+LeafOf == leaf
 
-PickLeaf == phase = "leaf" /\ \E x \in Leaves : ty' = x /\ wraps' = <<>> /\ phase' = "wrap"
+Init == ty = "" /\ wraps = <<>> /\ phase = "leaf" /\ sup = {} /\ leaf = ""
+\* well-formedness of the user's own type: a `'static` reference cannot point at data that only lives for 'a
+HasA == \E i \in DOMAIN wraps : wraps[i] = "ref_mut_a"
+WellFormedWrap(w) == (w \in {"ref_static", "slice_ref"}) => ~HasA
+
+PickLeaf ==
+  /\ phase = "leaf" /\ wraps' = <<>> /\ phase' = "wrap"
+  /\ IF Mode = "typed" THEN \E x \in TypedLeaves : ty' = x.ty /\ sup' = x.sup /\ leaf' = x.ty
+     ELSE \E x \in Leaves : ty' = x /\ sup' = {} /\ leaf' = x
 
 ApplyWrap(w) ==
   /\ phase = "wrap" /\ Len(wraps) < MaxDepth
-  /\ ty' = Wrap(w, ty) /\ wraps' = Append(wraps, w) /\ phase' = "wrap"
+  /\ IF Mode = "typed" THEN w \in TypedWrappers /\ WellFormedWrap(w) /\ ty' = WrapT(w, ty) /\ sup' = SupAfter(w, sup)
+     ELSE w \in Wrappers /\ ty' = Wrap(w, ty) /\ sup' = sup
+  /\ wraps' = Append(wraps, w) /\ phase' = "wrap" /\ UNCHANGED leaf
 
 \* the macro is total on it whatever the context; nothing else is predicted here
 Emit ==
   /\ phase = "wrap"
-  /\ phase' = "done" /\ UNCHANGED <<ty, wraps>>
-  /\ \A c \in Contexts : PrintT(<<"TYEXPR", ToJson([ty |-> ty, wraps |-> wraps, ctx |-> c])>>)
+  /\ phase' = "done" /\ UNCHANGED <<ty, wraps, sup, leaf>>
+  /\ IF Mode = "typed"
+     THEN PrintT(<<"TYTYPED", ToJson([ty |-> ty, wraps |-> wraps, leaf |-> LeafOf, sup |-> [t \in Nine |-> t \in sup]])>>)
+     ELSE \A c \in Contexts : PrintT(<<"TYEXPR", ToJson([ty |-> ty, wraps |-> wraps, ctx |-> c])>>)
 
-Next == PickLeaf \/ (\E w \in Wrappers : ApplyWrap(w)) \/ Emit
+Next == PickLeaf \/ (\E w \in Wrappers \cup TypedWrappers : ApplyWrap(w)) \/ Emit
 Spec == Init /\ [][Next]_vars
 TypeOK == Len(wraps) <= MaxDepth
+\* every typed expression implements at least Debug and the equality/ordering family or is a float
+TypedSane == (Mode = "typed" /\ phase # "leaf") => "Debug" \in sup
 =============================================================================
